@@ -356,7 +356,9 @@ def execute(ctx, case: dict) -> None:
                 # entries put before / between the blocks of a grouped ACL through the list API (no regrouping there)
                 from cisco_acl import Remark  # pylint: disable=import-outside-toplevel
 
-                new = Remark(text, platform=platform) if text.startswith("remark") else Ace(text, platform=platform)
+                # (built with the ACL's own version and switches, as a caller who wants one consistent spelling would)
+                kw2 = dict(platform=platform, version=str(obj.version), port_nr=obj.port_nr, protocol_nr=obj.protocol_nr)
+                new = Remark(text, **kw2) if text.startswith("remark") else Ace(text, max_ncwb=20, **kw2)
                 obj.insert(min(pos, len(obj.items)), new)
                 ctx.count("loose_entries_among_blocks")
         elif kind == "ace":
